@@ -1,6 +1,30 @@
-//! C22: not implemented yet.
+//! C22: archive save/restore chains through the public API.
+//! case: {spec: builder-spec (see e2e.rs), chain: n}
+//! out:  {r:"ok", base: <run>, restored: <run>}   where <run> = {r:"ok", report, view, manifest_len, archives:[sizes]}
+//!                                                            | {r:"sign_err"|"read_err", kind, detail}
 use serde_json::{json, Value};
 
-pub fn run(_case: &Value) -> Value {
-    json!({"r": "unimplemented"})
+use crate::{e2e, util::*};
+
+fn one(spec: &Value) -> Value {
+    let signed = match e2e::sign_spec(spec) {
+        Ok(s) => s,
+        Err(e) => return json!({"r": "sign_err", "kind": err_class(&e), "detail": format!("{e}").chars().take(300).collect::<String>()}),
+    };
+    match e2e::read_signed(spec, &signed) {
+        Ok(reader) => json!({"r": "ok", "report": e2e::report(&reader), "view": e2e::full_view(&reader),
+                             "manifest_len": signed.manifest.len(), "asset_len": signed.asset.len(), "archives": signed.archive_sizes}),
+        Err(e) => json!({"r": "read_err", "kind": err_class(&e), "detail": format!("{e}").chars().take(300).collect::<String>()}),
+    }
+}
+
+pub fn run(case: &Value) -> Value {
+    e2e::clear_cache();
+    let mut base = case["spec"].clone();
+    base["archive_chain"] = json!(0);
+    let mut chained = case["spec"].clone();
+    chained["archive_chain"] = json!(case["chain"].as_u64().unwrap_or(1));
+    let b = std::panic::catch_unwind(|| one(&base)).unwrap_or_else(|_| json!({"r": "panic"}));
+    let r = std::panic::catch_unwind(|| one(&chained)).unwrap_or_else(|_| json!({"r": "panic"}));
+    json!({"r": "ok", "base": b, "restored": r})
 }
